@@ -483,6 +483,8 @@ class Exec:
             k = unwrap(i, o.x['kk'])
             self.need(st, z3.Select(dom, k), f'key-present@{line}', 'safety', line)
             return o.x['vk'].wrap(z3.Select(arr, k))
+        if o.kind == 'fn2' and i.kind == 'tuple' and len(i.t) == 2:
+            return o.x['wrap'](o.t(toint(i.t[0]), toint(i.t[1])))
         if o.kind == 'tuple':
             it = z3.simplify(toint(i))
             if z3.is_int_value(it): return o.t[it.as_long()]
@@ -683,8 +685,18 @@ class Exec:
         return V('set', v.t, **v.x)
 
     def e_Dict(self, e, st):
-        if e.keys: return V('opaque')          # no information; any use that needs its content is out of reach
-        return V('map', None, empty=True)
+        if not e.keys: return V('map', None, empty=True)
+        try:
+            ks = [self.ev(k, st) for k in e.keys]; vs = [self.ev(v, st) for v in e.values]
+            kk, vk = self.join_desc([desc_of(k) for k in ks]), self.join_desc([desc_of(v) for v in vs])
+            arr = z3.K(kk.sort(), self.default_of(vk)); dom = z3.K(kk.sort(), z3.BoolVal(False)); size = z3.IntVal(0)
+            for k, v in zip(ks, vs):
+                kt = unwrap(k, kk)
+                size = z3.If(z3.Select(dom, kt), size, size + 1)
+                arr = z3.Store(arr, kt, unwrap(v, vk)); dom = z3.Store(dom, kt, z3.BoolVal(True))
+            return V('map', (arr, dom), kk=kk, vk=vk, size=z3.simplify(size))
+        except OutOfReach:
+            return V('opaque')          # no information; any use that needs its content is out of reach
 
     def join_desc(self, ds):
         d = ds[0]
@@ -707,7 +719,7 @@ class Exec:
         return V('str', parts[0] if len(parts) == 1 else z3.Concat(*parts))
 
     def e_ListComp(self, e, st):
-        if len(e.generators) != 1 or e.generators[0].is_async: raise OutOfReach('nested comprehension')
+        if len(e.generators) != 1 or e.generators[0].is_async: return V('opaque')      # nested comprehension: no information
         g = e.generators[0]
         src = self.ev(g.iter, st)
         return V('comp', None, src=src, target=g.target, elt=e.elt, conds=g.ifs, st=st, settype=False)
@@ -766,6 +778,7 @@ class Exec:
             if o.kind == 'str': return VI(z3.Length(o.t))
             if o.kind == 'comp' and not o.x['conds']: return self.builtin_len_src(o.x['src'])
             if o.kind == 'map' and o.get('size') is not None: return VI(o.get('size'))
+            if o.kind == 'mapiter' and o.x['m'].get('size') is not None: return VI(o.x['m'].get('size'))
             raise OutOfReach(f'len of {o.kind}')
         if name == 'range':
             ts = [toint(a) for a in args]
@@ -842,6 +855,7 @@ class Exec:
         if name in ('list', 'tuple'):
             if not args: return V('seq', None, ek=None, empty=True)
             a = args[0]
+            if a.kind == 'opaque': return a
             if a.kind == 'range':
                 lo, hi = a.x['lo'], a.x['hi']
                 n = z3.If(hi - lo < 0, 0, hi - lo)
@@ -908,7 +922,9 @@ class Exec:
             nxt = []
             m = getattr(self, 's_' + type(stmt).__name__, None)
             if m is None: raise OutOfReach(f'statement {type(stmt).__name__} at line {stmt.lineno}')
-            for x in states: nxt += m(stmt, x)
+            for x in states:
+                if '$continue' in x.vars or '$break' in x.vars: nxt.append(x)       # control already left this block
+                else: nxt += m(stmt, x)
             states = nxt
         return states
 
@@ -978,6 +994,10 @@ class Exec:
         if isinstance(target, ast.Attribute):
             if v.kind == 'comp': v = self.materialise(st, v)
             o = self.ev(target.value, st)
+            if o.kind == 'ref' and self.c.get('ref_store'):
+                # store into a field of a symbolic object: the contract decides what must hold of the stored value (obligations), no frame is kept
+                self.c['ref_store'](self, st, o, target.attr, v)
+                return st
             if o.kind != 'obj': raise OutOfReach(f'attribute store on {o.kind} (line {target.lineno})')
             st.setfield(o, target.attr, v)
             return st
@@ -995,7 +1015,9 @@ class Exec:
                 size = o.get('size')
                 if size is not None: size = z3.If(z3.Select(dom, kt), size, size + 1)
                 vk = o.x['vk']
-                if vk.kind in ('num', 'int') and v.kind == 'real': raise OutOfReach('map value kind widens')
+                if vk.kind == 'num' and v.kind == 'real':
+                    vk = DR; o = V('map', o.t, **{**o.x, 'vk': DR})        # numeric literal values and expression values share the sort Real
+                if vk.kind == 'int' and v.kind == 'real': raise OutOfReach('map value kind widens')
                 new = V('map', (z3.Store(arr, kt, unwrap(v, vk)), z3.Store(dom, kt, z3.BoolVal(True))),
                         **{**o.x, 'size': size})
                 return self.store(target.value, new, st)
@@ -1012,15 +1034,16 @@ class Exec:
     def s_Assign(self, n, st):
         st = st.fork()
         v = self.ev(n.value, st)
-        if v.get('empty') and len(n.targets) == 1 and isinstance(n.targets[0], ast.Name):
-            d = (self.c.get('empty_kinds') or {}).get(n.targets[0].id)     # sort of an initially empty local container, from the contract
-            if d is not None: v = V(d.kind, z3.Empty(d.sort()), ek=d.x['elem'])
+        if v.get('empty') and len(n.targets) == 1:
+            d = (self.c.get('empty_kinds') or {}).get(ast.unparse(n.targets[0]))     # sort of an initially empty container, from the contract
+            if isinstance(d, V): v = d
+            elif d is not None: v = V(d.kind, z3.Empty(d.sort()), ek=d.x['elem'])
         for t in n.targets: self.store(t, v, st)
         return [st]
 
     def s_AnnAssign(self, n, st):
         if n.value is None: return [st]
-        v = self.ev(n.value, st); st = st.fork(); self.store(n.target, v, st); return [st]
+        return self.s_Assign(ast.Assign(targets=[n.target], value=n.value, lineno=n.lineno), st)
 
     def s_AugAssign(self, n, st):
         cur = self.ev(n.target, st)
@@ -1161,8 +1184,14 @@ class Exec:
                 if v.get('empty'): raise OutOfReach(f'loop-carried empty container {m}: element sort unknown')
                 h.vars[m] = self.fresh_like(v, m)
         for base, attr in sorted(attrs):
-            o = self.ev(ast.parse(base, mode='eval').body, st)
-            if o.kind != 'obj': raise OutOfReach('loop writes a field of a symbolic object')
+            try:
+                o = self.ev(ast.parse(base, mode='eval').body, st)
+            except OutOfReach:
+                if self.c.get('ref_store'): continue        # base is a loop-local symbolic object: stores are handled by the contract hook, no frame kept
+                raise
+            if o.kind != 'obj':
+                if self.c.get('ref_store'): continue
+                raise OutOfReach('loop writes a field of a symbolic object')
             cur = st.heap[o.t][attr]
             key = f'{base}.{attr}'
             if kinds.get(key) == 'real' and cur.kind in ('int', 'num'): cur = VR(toreal(cur))
@@ -1188,7 +1217,9 @@ class Exec:
                         if b == 'real' and a in ('int', 'num') and kinds.get(m) != 'real':
                             kinds[m] = 'real'; changed = True
                 for base, attr in attrs:
-                    o = self.ev(ast.parse(base, mode='eval').body, st)
+                    try: o = self.ev(ast.parse(base, mode='eval').body, st)
+                    except OutOfReach: continue
+                    if o.kind != 'obj': continue
                     a, b = st.heap[o.t][attr].kind, out.heap[o.t][attr].kind
                     if b == 'real' and a in ('int', 'num') and kinds.get(f'{base}.{attr}') != 'real':
                         kinds[f'{base}.{attr}'] = 'real'; changed = True
